@@ -190,7 +190,9 @@ pub(crate) trait MessageType: Sized {
 
         self.set_connection_type(ka);
 
-        if expect {
+        // an HTTP/1.0 client can not receive an interim response: a 100-continue expectation in an
+        // HTTP/1.0 request must be ignored (RFC 7231 §5.1.1)
+        if expect && version >= Version::HTTP_11 {
             self.set_expect()
         }
 
